@@ -4,4 +4,5 @@ CONSTANTS
 INIT Init
 NEXT Next
 INVARIANT NoViolation
+INVARIANT TypeInv
 CHECK_DEADLOCK FALSE
